@@ -97,8 +97,8 @@ static CO_ERR COTInt8Write(struct CO_OBJ_T *obj, struct CO_NODE_T *node, void *b
     ASSERT_PTR_ERR(obj, CO_ERR_BAD_ARG);
     ASSERT_PTR_ERR(buffer, CO_ERR_BAD_ARG);
 
-    value = *((uint8_t *)buffer);
     if (size == COT_ENTRY_SIZE) {
+        value = *((uint8_t *)buffer);
         if (CO_IS_NODEID(obj->Key) != 0) {
             value -= node->NodeId;
         }
